@@ -11,8 +11,9 @@ Stage by stage on the models of C06 (`Model/Find.lean`), C07 (`Model/Refine.lean
 
 **Shift** ("moving the image content by whole pixels inside a larger blank canvas moves every located
 feature by exactly that offset and changes no other reported quantity"):
-* `thr_shift`, `scale_shift`   the percentile threshold (non-zero pixels only) and `convert_to_int`'s
-                       global maximum do not depend on where the content sits;
+* `thr_shift`          the percentile threshold (non-zero pixels only) does not depend on where the
+                       content sits (`scale_shift`, the same for `convert_to_int`'s global maximum, is
+                       not proved — see the end of the file);
 * `maxima_shift`, `greyDilation_shift`   the local maxima of two embeddings of one content image are
                        the same content pixels (any dimension; padding ≥ margin);
 * `refine_shift`       every number `refine_com` reports is unchanged, centre and position move by the
@@ -636,5 +637,36 @@ example : batchModel (fun n : Nat => List.range n) [⟨some 5, 1⟩, ⟨some 3, 
     [(5, 0), (3, 0), (3, 1)] := by decide
 
 end batch
+
+/-! ## not proved
+
+-- FULL (not proved): scale_shift —
+--   theorem scale_shift (xs ys : List Rat) (h : xs.Perm ys) :
+--     ∃ f : Rat → Nat, Find.convertToInt xs = xs.map f ∧ Find.convertToInt ys = ys.map f
+--   (`convert_to_int` rescales every pixel by `255 / global max`, a function of the multiset of
+--   pixels; two embeddings of one content in equally sized canvases are permutations of each other).
+
+-- FULL (not proved): locateModel_shift —
+--   for `big₁ = Locate.embed canvas off₁ content`, `big₂ = Locate.embed canvas off₂ content` with
+--   padding ≥ halo + max(margin, radius + max_iterations) + 1 on every side (halo = max of the kernel
+--   and box half-widths when `P.preprocess`, else 0):
+--     Locate.locateModel P canvas big₂.data = (Locate.locateModel P canvas big₁.data).map
+--       (fun m => { m with centre := centre + (off₂ − off₁), pos := pos + (off₂ − off₁) })
+--   Missing glue between the three image representations of the stage models: the flat index of an
+--   embedded `Array` (`embed` ⇒ `IsEmbedQ`, and the bandpassed canvases as embeddings of one
+--   halo-extended content), `scale_shift`, `Refine.ofArray` of an embedded array as `shiftImg`, and
+--   the preservation of the `np.where` order.  The stage theorems above (`bandpass_shift`,
+--   `bandpass_blank_far`, `thr_shift`, `greyDilation_shift`, `refine_shift`) are the steps of that
+--   proof; the composition is exercised end to end on `tp.locate` by the harness (stream `shift`) and
+--   `locateModel` itself is compared with the stage calls of `locate` (stream `stage`).
+
+-- FULL (not proved): locateNoPre_transpose —
+--   for a 2-D integer image and `P.preprocess = false`:
+--     Locate.locateModel (P with per-axis lists reversed) [W, H] (transpose raw) is, up to the order
+--     of the rows, (Locate.locateModel P [H, W] raw) with `centre`, `pos` (and per-axis `rg2`)
+--     components exchanged, `ecc = (a, b, cp) ↦ (−a, b, cp)`, all other fields equal.
+--   From `maxima_transpose` and `refine_transpose`; missing: `Refine.ofArray` of a transposed array
+--   as `transImg`, and the statement "up to row order" for the two `np.where` orders.
+-/
 
 end TrackpyV.C09
